@@ -16,13 +16,15 @@ EXPLANATION = (
     "the size requested; gz buffers are freed with the capacity expressions they were allocated with. A failed deflateCopy/"
     "inflateCopy overwrites dest.state before returning MemError. SIB: in both alternatives of allocate_layout and "
     "allocate_layout_zeroed the usize size reaches the c_uint parameter of zalloc through a fallible conversion. Error discipline: "
-    "the Result of gz_look/gz_init/gz_comp/... is discarded only in listed places. Balance over arbitrary run-time histories is not decided.")
+    "the Result of gz_look/gz_init/gz_comp/... is discarded only in listed places. Balance over arbitrary run-time histories is not decided. "
+    "REL/end-frees: deflate::end and inflate::end reach Allocator::deallocate and null strm.state on every path to return; gzclose_r/gzclose_w call free_state on every path once the handle is admitted.")
 
 CLAIM = dict(
     text="Static release-on-failure (cut-set from each successful allocation to every failure exit it dominates), who-may-allocate/"
          "free, stored-pointer/size agreement between allocation and free, no-alias-after-failed-copy, and size-conversion "
          "integrity of the allocator front end. Covers the k-th allocation failing for every k without injecting faults. "
-         "Necessary conditions of balanced allocation and clean failure.",
+         "Necessary conditions of balanced allocation and clean failure. "
+         "Also: deflateEnd/inflateEnd/gzclose release the state on every path to return.",
     note="Trusted: rustc MIR; listed infeasible exits (one reason each); K1 (Rust allocator) and K2 (C allocator) builds.",
     technique="release-on-failure cut-set analysis + who-may-call + stored-size agreement over rustc MIR",
 )
@@ -362,6 +364,66 @@ def _local_reads(fn):
     return used
 
 
+END_FUNCS = [Z + "deflate::end", Z + "inflate::end"]
+
+
+def end_releases(ck, P, cfg):
+    """deflateEnd / inflateEnd release the state block and null the state pointer on every path - whatever the status
+    they report.  (A Busy stream ended early is an error *code*, not a reason to keep the memory: nothing else frees it.)"""
+    R = "REL/end-frees"
+    n = 0
+    for path in END_FUNCS:
+        fn = P.fn(path)
+        if not ck.anchor("fn %s (%s)" % (path, cfg), fn):
+            continue
+        ck.use_fn(fn)
+        n += 1
+        rets = [b for b, k in fn.exits() if k == "return"]
+        frees = {c.bb for c in fn.live_calls(r"Allocator::deallocate$")}
+        nulls = set()
+        for c in fn.live_calls(r"mem::replace$|mem::take$|ptr::write$"):
+            a = fn.call_args(c)
+            if a and mir.mentions_field(a[0], "state"):
+                nulls.add(c.bb)
+        for bi, fp, root, rv, st in fn.field_writes():
+            if fp[-1:] == ("state",):
+                nulls.add(bi)
+        short = path.replace(Z, "")
+        leak = not frees or flow.reaches_avoiding(fn, [0], rets, cut_blocks=frees)
+        ck.decide(not leak, R, "%s:free@%s" % (short, cfg), "deallocate on every path to return",
+                  "%s can return without releasing the state allocation (an early return before Allocator::deallocate): the block "
+                  "is never freed, and the state pointer stays set so a second End does not free it either" % short, where(fn))
+        stale = not nulls or flow.reaches_avoiding(fn, [0], rets, cut_blocks=nulls)
+        ck.decide(not stale, R, "%s:null@%s" % (short, cfg), "strm.state nulled on every path to return",
+                  "%s can return with strm.state still pointing at the (released) state" % short, where(fn))
+    ck.floor(R + ":" + cfg, n, 2)
+
+
+
+def gzclose_releases(ck, P, cfg):
+    """gzclose_r / gzclose_w: once the handle passed the admission tests, every path to return releases the state"""
+    R = "REL/end-frees"
+    for name in ("gzclose_r", "gzclose_w"):
+        fn = P.fn(SYS + "gz::" + name)
+        if not ck.anchor("fn gz::%s (%s)" % (name, cfg), fn):
+            continue
+        ck.use_fn(fn)
+        admitted = set()
+        for b in fn.live:
+            for a in fn.dominating_atoms(b):
+                s_ = sig.sig(a, fn)
+                if s_.rel == "Eq" and "mode" in s_.names and ({"GZ_WRITE", "GZ_READ"} & set(s_.names)):
+                    admitted.add(b)
+        preds = fn.preds()
+        entries = [b for b in admitted if any(p not in admitted for p, _ in preds.get(b, []))]
+        rets = [b for b, k in fn.exits() if k == "return"]
+        frees = {c.bb for c in fn.live_calls(r"gz::free_state$")}
+        ok = bool(entries) and bool(frees) and not flow.reaches_avoiding(fn, entries, rets, cut_blocks=frees)
+        ck.decide(ok, R, "gz::%s:free@%s" % (name, cfg), "free_state on every path after admission",
+                  "gz::%s can return, after accepting the handle, without calling free_state: the gz state (and its path/message "
+                  "strings) leak, and the caller must not use the handle again" % name, where(fn))
+
+
 def run_cfg(ck, cfg):
     P = prog(cfg)
     ck.configs.add(cfg)
@@ -371,6 +433,8 @@ def run_cfg(ck, cfg):
     stored_size(ck, P, cfg)
     failed_copy(ck, P, cfg)
     error_discipline(ck, P, cfg)
+    end_releases(ck, P, cfg)
+    gzclose_releases(ck, P, cfg)
 
 
 def run(ck):
